@@ -103,10 +103,46 @@ class TakeIt(It):
         return self.a.next(it, depth)
 
 
+def _local_iter_impl(it, v):
+    """`impl Iterator for <local ADT>`: the body of its `next`, if the value is such an ADT"""
+    if not (isinstance(v, tuple) and v[0] == "adt" and v[1].startswith("retrofire_")):
+        return None
+    rel = v[1].split("::", 1)[1]
+    for b in it.prog.bodies.values():
+        if b.kind == "AssocFn" and (b.impl_trait or "").endswith("iter::traits::iterator::Iterator") and b.path.endswith("::next") \
+                and ((b.impl_self or "").startswith(rel + "<") or (b.impl_self or "") == rel):
+            return b
+    return None
+
+
+class UserIt(It):
+    """a user-defined iterator (local `impl Iterator`), advanced by interpreting its own `next`"""
+    def __init__(self, ref, body):
+        self.ref, self.body = ref, body
+
+    def next(self, it, depth):
+        r = A.deref_all(it, it.call_body(self.body, [self.ref], depth + 1, env=it.infer_env(self.body, [self.ref])))
+        if not (isinstance(r, tuple) and r[0] == "adt" and r[2] in ("Some", "None")):
+            raise A.Undecided("user iterator returned %r" % (r,))
+        return None if r[2] == "None" else r[3][0]
+
+
 def as_iter(it, v):
     """IntoIterator::into_iter on a runtime value"""
     if isinstance(v, tuple) and v[0] == "iter":
         return v[1]
+    if isinstance(v, tuple) and v[0] == "ref":
+        tgt0 = A.deref_all(it, v)
+        ub = _local_iter_impl(it, tgt0)
+        if ub is not None:
+            r = v
+            while isinstance(it.load_ref(r), tuple) and it.load_ref(r)[0] == "ref":
+                r = it.load_ref(r)
+            return UserIt(r, ub)
+    if isinstance(v, tuple) and v[0] == "adt" and _local_iter_impl(it, v) is not None:
+        cell = A.Frame(None)
+        cell.locals[0] = v
+        return UserIt(("ref", cell, 0, []), _local_iter_impl(it, v))
     if isinstance(v, tuple) and v[0] == "ref":
         tgt = it.load_ref(v)
         if isinstance(tgt, tuple) and tgt[0] == "iter":
@@ -176,6 +212,8 @@ def m_next(it, args, callee, depth):
     if isinstance(tgt, tuple) and tgt[0] == "iter":
         x = tgt[1].next(it, depth)
         return A.NONE if x is None else A.some(x)
+    if _local_iter_impl(it, tgt) is not None:
+        return NotImplemented                     # a local `impl Iterator`: interpret its own next()
     if isinstance(tgt, tuple) and tgt[0] == "adt" and tgt[1].endswith("ops::range::Range") and all(isinstance(x, int) for x in tgt[3]):
         if tgt[3][0] < tgt[3][1]:
             cur = tgt[3][0]
@@ -563,6 +601,17 @@ def m_len(it, args, callee, depth):
     return NotImplemented
 
 
+def m_mem_replace(it, args, callee, depth):
+    r = args[0]
+    if not (isinstance(r, tuple) and r[0] == "ref"):
+        raise A.Undecided("mem::replace through %r" % (r,))
+    old = it.load_ref(r)
+    it._store(r[1], r[2], list(r[3]), args[1])
+    return old
+
+
+ALG_MODELS["core::mem::replace"] = m_mem_replace
+ALG_MODELS["core::iter::traits::iterator::Iterator::by_ref"] = lambda it, args, callee, depth: args[0]
 ALG_MODELS["$vec::Vec::<T, A>::len"] = m_len
 ALG_MODELS["$slice::<impl [T]>::len"] = m_len
 
